@@ -3,7 +3,7 @@ import re
 
 from bsv.dtab import AnalysisBroken
 from bsv.facts import child, strip, strip_targs
-from rules import json_render
+from rules import json_load, json_render
 from rules.c13 import ENUM, switch_cases
 
 PROP = 'C08'
@@ -80,6 +80,10 @@ def xml_flag_paths(prog, f):
 
 
 def run(prog, rep):
+    rep.rule('R8.10', 'JSON LoadValue decision table over the kinds of JSON value (null, booleans, the integer classes of RapidJSON with and without an exact double, '
+                      'double, string, array, object) x target kind: every number spelling loads into a floating target, integers go through the range-checked '
+                      'conversion of the getter that is valid for their class, other kinds reach the mismatched-types policy', floor=10)
+    json_load.check(prog, rep, 'R8.10')
     rep.rule('R8.1', 'every rapidjson Accept() result is consumed', floor=4)
     rep.rule('R8.2', 'ParseStream over AutoUTFInputStream names AutoUTF as source encoding', floor=1)
     rep.rule('R8.3', 'ToRapidUtfType / ToPugiUtfType: each UtfType enumerator returns the like-named back-end constant; the default throws', floor=12)
